@@ -64,7 +64,7 @@ vf::Outcome run_case(const vf::Case& c, const vf::RunCtx& ctx) {
       double worst_noise = noise;
       for (LD v : ref_lin_scale_c(s, xc)) worst_noise = std::max(worst_noise, 64 * kU * (double)v);
       const double dist = (double)eps * std::pow(10.0, sexp);
-      if (dn > 0 && worst_noise <= 1e-2 * std::min((double)eps, dist) && dist < 0.5) {
+      if (dn > (kIsFloat ? 1e-30 : 1e-300) && worst_noise <= 1e-2 * std::min((double)eps, dist) && dist < 0.5) {
         TangentT d = dir;
         d.coeffs() *= (Scalar)(dist / dn);     // ||d||_inf = eps * 10^s
         const GroupT Y = X + d;
@@ -84,7 +84,7 @@ vf::Outcome run_case(const vf::Case& c, const vf::RunCtx& ctx) {
       k.require("t.isApprox(t)", U.isApprox(U, eps) && (U == U), "t.isApprox(t) is false");
       const TangentT Z = TangentT::Zero();
       const double un = (double)U.coeffs().cwiseAbs().maxCoeff();
-      if (un > 0) {
+      if (un > (kIsFloat ? 1e-30 : 1e-300)) {
         // absolute test against zero
         TangentT tiny = U; tiny.coeffs() *= (Scalar)(0.1 * (double)eps / un);
         TangentT big = U; big.coeffs() *= (Scalar)(10 * (double)eps / un);
